@@ -1,9 +1,9 @@
 #!/usr/bin/env python3
-# usage: save-seeded.py <CNN> <k> "<caught by: check:group ...>" "<note>"
+# usage: save-seeded.py <CNN> <k> "<caught by: check:group ...>" "<note>" [<index under seeded/>]
 import json,sys,shutil,os
 cid,k,caught,note=sys.argv[1],sys.argv[2],sys.argv[3],sys.argv[4]
 src=f'/tmp/seed-{cid}/out/{k}'
-dst=f'/verif/seeded/{cid}-{k}'
+dst=f'/verif/seeded/{cid}-{sys.argv[5] if len(sys.argv)>5 else k}'  # optional 5th argument: index under seeded/ (second-round changes: 4,5,6)
 os.makedirs(dst,exist_ok=True)
 for f in ('patch.diff','demo.sh','demo_test.go'):
     if os.path.exists(f'{src}/{f}'): shutil.copy(f'{src}/{f}',dst)
